@@ -24,7 +24,9 @@ const c42Rule = "cases = worlds of three real chains (A-B: v1 channel, its v2 al
 
 // denomination shapes -----------------------------------------------------------------------------------------
 
-func genWord(r *kit.Rng) string { return kit.Pick(r, []string{"foo", "abc", "uatom", "stk", "Bar9", "pool", "gamm"}) }
+func genWord(r *kit.Rng) string {
+	return kit.Pick(r, []string{"foo", "abc", "uatom", "stk", "Bar9", "pool", "gamm"})
+}
 
 // genNative returns a native bank denomination and its shape class (known by construction).
 func genNative(r *kit.Rng, ids []string) (string, string) {
@@ -383,7 +385,7 @@ func TestC42(t *testing.T) {
 	} {
 		c.Floor(k, v)
 	}
-	n := c.N(8, 30)
+	n := c.N(8, 20)
 	seen := map[string]int{}
 	for i := 0; i < n; i++ {
 		if c.SkipCase(i) {
